@@ -34,7 +34,7 @@ EPS = 1e-6
 
 def plan(tier):
     if tier == "quick":
-        return [{"n": 350, "i": i, "strict": i % 2 == 0} for i in range(16)]
+        return [{"n": 200, "i": i, "strict": i % 2 == 0} for i in range(16)]
     return [{"n": 8000, "i": i, "strict": i % 2 == 0} for i in range(16)]
 
 
@@ -71,8 +71,9 @@ def oracle(ctx, f, c):
             n = len(r["cb"])
             if n != 1:
                 if n == 0 and not f.quiescent and rel.sender_holds(f.conns[side], r):
-                    # the cap expired while the sender is still legitimately working on it
-                    ctx.inconclusive += 1
+                    # still queued / in flight although the link has been loss-free for the whole heal phase (cap: 3 message
+                    # timeouts + 4 x the backlog + 10 s): the callback is not going to fire
+                    ctx.violation("callback-never-fires-message-stuck", "%s: no callback %.1f s after the network healed; the sender still holds (part of) the message" % (desc, f.t_end - f.t_heal))
                     continue
                 kind = "fragmented" if r["n"] > f.P else "single"
                 rside = r["receiver"][0]
